@@ -168,6 +168,7 @@ def observe(sb, font_name):
     if "CBLC" in f:
         obs["ppem"] = [s.bitmapSizeTable.ppemX for s in f["CBLC"].strikes]
         data = f["CBDT"].strikeData[0]
+        obs["bearing_y"] = sorted({d.metrics.BearingY for d in data.values()})
         obs["png_sha"] = {gn: hashlib.sha256(d.imageData).hexdigest()[:16] for gn, d in data.items()}
     return obs
 
@@ -247,8 +248,14 @@ def expected_ok(field, intended, obs, base_obs, sb):
         pref = {"custom_glyphmap_file": "fileg", "custom_glyphmap_flag": "flagg"}.get(intended, "g_")
         return None if str(obs["name_1f600"]).startswith(pref) else f"glyph name {obs['name_1f600']} lacks prefix {pref}"
     if field == "bitmap_resolution":
-        return None if obs.get("ppem") and all(p == round(1024 * intended / 1200) for p in obs["ppem"]) else \
-            f"strike ppem {obs.get('ppem')} for resolution {intended}"
+        ppem = round(1024 * intended / 1200)
+        if not (obs.get("ppem") and all(p == ppem for p in obs["ppem"])):
+            return f"strike ppem {obs.get('ppem')} for resolution {intended}"
+        # the resolution also decides where the bitmap sits: its top at the scaled ascender
+        top = 950 * ppem / 1024
+        if any(abs(b - top) > 2 for b in obs.get("bearing_y", [])):
+            return f"bitmaps rendered at {intended} px are placed with BearingY {obs['bearing_y']}, the scaled ascender is {top:.1f} px"
+        return None
     if field in ("use_zopflipng", "use_pngquant", "pngquant_flags"):
         return None  # judged by png bytes below
     if field == "output_file":
